@@ -6,8 +6,8 @@ From Sakura.Gen Require Import SutotonTable.
 From Sakura.Spec Require Import RewriteSpec.
 Extraction Language OCaml.
 Extraction "../ocaml/sutoton_model.ml"
-  Sutoton.convert Sutoton.init_items Sutoton.conv_loop Zen2han.zen2han Cursor2.trim
+  Sutoton.convert Sutoton.init_items Sutoton.conv_loop Zen2han.zen2han Cursor2.trim Cursor2.trim_end
   SutotonTable.sutoton_table
   RewriteSpec.longest_match RewriteSpec.translit RewriteSpec.src_of RewriteSpec.segmented
   BinInt.Z.add BinInt.Z.mul BinInt.Z.opp
-  RewriteSpec.rewrite RewriteSpec.define RewriteSpec.strip RewriteSpec.width_map RewriteSpec.is_special.
+  RewriteSpec.rewrite RewriteSpec.define RewriteSpec.strip RewriteSpec.strip_right RewriteSpec.width_map RewriteSpec.is_special.
